@@ -275,13 +275,13 @@ def FilterSite (s : Site) : Prop := s = .asTagUnwrap ∨ s = .oneOfListDepth
 theorem inferVariableType_sat (left : FTy) (op : BinOp) :
     Sat (fun s => s = .oneOfListDepth) (inferVariableType left (.bin op)) (fun _ => True) := by
   unfold inferVariableType
-  cases op.cls <;> simp only
+  cases hc : op.cls <;> simp only [hc]
   · trivial
   · trivial
   · split <;> trivial
   · split
     · trivial
-    · rfl
+    · exact rfl
   · trivial
 
 theorem makeFilterExpr_sat {st : St} (hinv : st.Inv) (vid : Vid) (ty : FTy) (fd : FilterDirective) :
@@ -314,7 +314,7 @@ theorem makeFilterExpr_sat {st : St} (hinv : st.Inv) (vid : Vid) (ty : FTy) (fd 
       split <;> exact hr
 
 theorem filtersLoop_sat (vid : Vid) (ty : FTy) (fds : List FilterDirective) :
-    ∀ {st : St} (errs : List FrontErr) (uses : List (String × FTy)), st.Inv →
+    ∀ (st : St) (errs : List FrontErr) (uses : List (String × FTy)), st.Inv →
     Sat FilterSite (filtersLoop vid ty st errs uses fds)
       (fun r => r.1.Inv ∧ St.TagOnly st r.1 ∧ ∃ more, r.2.1 = errs ++ more) := by
   induction fds with
@@ -324,15 +324,15 @@ theorem filtersLoop_sat (vid : Vid) (ty : FTy) (fds : List FilterDirective) :
     unfold filtersLoop
     refine Sat.bind (makeFilterExpr_sat hinv vid ty fd) fun r hr => ?_
     split
-    · exact (ih errs _ hr.1).mono fun _ h => ⟨h.1, hr.2.trans h.2.1, h.2.2⟩
-    · exact (ih errs _ hr.1).mono fun _ h => ⟨h.1, hr.2.trans h.2.1, h.2.2⟩
+    · exact (ih _ errs _ hr.1).mono fun _ h => ⟨h.1, hr.2.trans h.2.1, h.2.2⟩
+    · exact (ih _ errs _ hr.1).mono fun _ h => ⟨h.1, hr.2.trans h.2.1, h.2.2⟩
     · rename_i es _
-      exact (ih (errs ++ es) _ hr.1).mono fun _ h =>
+      exact (ih _ (errs ++ es) _ hr.1).mono fun _ h =>
         ⟨h.1, hr.2.trans h.2.1, by obtain ⟨m, hm⟩ := h.2.2; exact ⟨es ++ m, by simp [hm]⟩⟩
 
 theorem vertexFilters_sat (props : List PropRec) (vid : Vid) (todo : List PropRec)
     (hsub : ∀ p ∈ todo, p ∈ props) :
-    ∀ {st : St} (errs : List FrontErr) (uses : List (String × FTy)), st.Inv →
+    ∀ (st : St) (errs : List FrontErr) (uses : List (String × FTy)), st.Inv →
     Sat FilterSite (vertexFilters props vid st errs uses todo)
       (fun r => r.1.Inv ∧ St.TagOnly st r.1 ∧ ∃ more, r.2.1 = errs ++ more) := by
   induction todo with
@@ -342,7 +342,7 @@ theorem vertexFilters_sat (props : List PropRec) (vid : Vid) (todo : List PropRe
     have ih' := ih (fun q hq => hsub q (List.mem_cons_of_mem _ hq))
     unfold vertexFilters
     split
-    · exact ih' errs uses hinv
+    · exact ih' _ errs uses hinv
     · split
       · rename_i hnone
         -- `properties.get(&(vid, name)).unwrap()`: the key was taken from the map itself
@@ -352,9 +352,9 @@ theorem vertexFilters_sat (props : List PropRec) (vid : Vid) (todo : List PropRe
         have := hnone p hp
         simp at this
       · rename_i q _
-        refine Sat.bind (filtersLoop_sat vid q.ty _ errs uses hinv) fun r hr => ?_
+        refine Sat.bind (filtersLoop_sat vid q.ty _ _ errs uses hinv) fun r hr => ?_
         obtain ⟨m1, hm1⟩ := hr.2.2
-        exact (ih' r.2.1 r.2.2 hr.1).mono fun _ h =>
+        exact (ih' _ r.2.1 r.2.2 hr.1).mono fun _ h =>
           ⟨h.1, hr.2.1.trans h.2.1, by obtain ⟨m, hm⟩ := h.2.2; exact ⟨m1 ++ m, by simp [hm, hm1]⟩⟩
 
 /-- The type name `make_vertex` gives a vertex when it succeeds. -/
@@ -373,24 +373,28 @@ theorem makeVertex_sat (S : SchemaView) (props : List PropRec) {st : St} (hinv :
     exact absurd (List.getLast?_eq_none_iff.mp hnone) hinv.path_ne
   · simp only [bind_ok]
     split
-    · refine ⟨hinv, St.TagOnly.refl _, by intro tn us h; cases h, by intro es h; cases h; simp⟩
+    · refine ⟨hinv, St.TagOnly.refl _, ?_, ?_⟩
+      · intro tn us h; cases h
+      · intro es h; cases h; simp
     · rename_i tn htn
-      refine Sat.bind (vertexFilters_sat props v.vid props (fun _ h => h) _ [] hinv) fun r hr => ?_
+      refine Sat.bind (vertexFilters_sat props v.vid props (fun _ h => h) _ _ [] hinv) fun r hr => ?_
       split
-      · refine ⟨hr.1, hr.2.1, ?_, by intro es h; cases h⟩
-        intro tn' us h
-        cases h
-        unfold VertexRec.postType
-        cases hc : v.coercedTo with
-        | none => simp [hc] at htn; simp [htn]
-        | some c =>
-          simp [hc] at htn
-          simp [htn.2]
+      · refine ⟨hr.1, hr.2.1, ?_, ?_⟩
+        · intro tn' us h
+          cases h
+          unfold VertexRec.postType
+          cases hc : v.coercedTo with
+          | none => simp [hc] at htn; simp [htn]
+          | some c =>
+            simp [hc] at htn
+            simp [htn.2]
+        · intro es h; cases h
       · rename_i hne
-        refine ⟨hr.1, hr.2.1, by intro tn' us h; cases h, ?_⟩
-        intro es h
-        cases h
-        intro h0
-        simp [h0] at hne
+        refine ⟨hr.1, hr.2.1, ?_, ?_⟩
+        · intro tn' us h; cases h
+        · intro es h
+          cases h
+          intro h0
+          simp [h0] at hne
 
 end TF.FE
